@@ -177,6 +177,12 @@ def target_positions(ref_pos, anch, m, place, seed, margin=MARGIN):
             else:
                 raise RuntimeError('target_positions: no tie-free far point')
             out.append(p)
+    elif place == 'onanchor':
+        # target atoms sitting (almost) ON reference atoms: offsets of a few 1e-9 nm, i.e. local coordinates far
+        # below anything a "noise clean-up" would keep, yet 1e7 times above rounding
+        for k in range(m):
+            a = anch[k % na]
+            out.append(ref_pos[a] + (4e-9 + 1e-9 * (k % 3)) * G[(2 * k + 7) % len(G)])
     elif place == 'neartie':
         # almost on the bisector plane of two anchors: the two nearest anchors differ in distance by ~1e-8 nm (far
         # above rounding, far below any sensible tolerance), the genuinely closer one having the HIGHER index
